@@ -5,5 +5,5 @@ cd "$(dirname "$0")"
 W=/var/tmp/verif-seedtry/$id-$prop; rm -rf $W; mkdir -p $W
 rsync -a --exclude /target --exclude /website /repo/ $W/repo/
 if [ -f seeded/$id/patch_on_repaired_tree.diff ]; then git -C $W/repo apply /verif/seeded/$id/patch_on_repaired_tree.diff; else git -C $W/repo apply /verif/seeded/$id/patch.diff; fi || { echo "patch does not apply"; exit 3; }
-VERIF_REPO=$W/repo VERIF_EVIDENCE_DIR=$W/evidence ./check $prop --tier quick "$@" 2>&1 | grep -E "^(VIOLATION|OK|INCONCLUSIVE|  class|KNOWN)" | head -8 | cut -c1-400
+VERIF_REPO=$W/repo VERIF_EVIDENCE_DIR=$W/evidence ./check $prop --tier quick "$@" 2>&1 | grep -E "${VERIF_TRY_GREP:-^(VIOLATION|OK|INCONCLUSIVE|  class|KNOWN)}" | head -${VERIF_TRY_LINES:-8} | cut -c1-400
 rm -rf $W
